@@ -152,7 +152,7 @@ package handler
 // the 500 is a complete response: a Content-Length the panicked handler had declared (for a body it never wrote)
 // is withdrawn before the status goes out - otherwise the client gets "500, 17 bytes follow" and no byte
 //@   replay-for 500-does-not-promise-the-handlers-body handler_recover_content_length
-//@   ensures [500-does-not-promise-the-handlers-body] panicked(ServeHTTP) ==> calls(w.Header) == 1 && calls(Del) == 1 && arg(Del, 0) == ret(w.Header) && arg(Del, 1) == "Content-Length" && before(Del, WriteHeader)
+//@   ensures [500-does-not-promise-the-handlers-body] panicked(ServeHTTP) ==> calls(w.Header) >= 1 && calls(Del, ret(w.Header, 0, 1), "Content-Length") >= 1 && before(Del, WriteHeader)
 
 // ---------------- BreakerHandler (C01): what a route's breaker is told ----------------
 // A request rejected by the breaker gets 503 and never reaches the next handler; an admitted request reaches it
